@@ -57,6 +57,7 @@ pub enum Ev {
     EstimatorReset,
     ExtremeLimit,
     IterFinish,
+    BurstCleared,
     N,
 }
 
@@ -105,6 +106,7 @@ pub const EV_NAMES: [&str; Ev::N as usize] = [
     "estimator_reset",
     "room_left_checked_at_extreme_limit",
     "iter_std_consumption_path_on_non_empty_rest",
+    "clear_after_tracking_more_than_1024_keys",
 ];
 
 #[derive(Clone, Debug)]
